@@ -592,7 +592,7 @@ func runEval(c Case, l *layout) *hx.Failure {
 	var err error
 	if f := hx.Guard(func() {
 		erp := interpreter.NewECALRuntimeProvider("c18", nil, util.NewNullLogger())
-		defer erp.Cron.Stop()
+		go erp.Cron.Stop() // detached: never wait for it (it can deadlock against the cron tick)
 		var ast *parser.ASTNode
 		if ast, err = parser.ParseWithRuntime("c18", l.src, erp); err != nil {
 			return
